@@ -406,12 +406,14 @@ Section Limit.
   Definition klimfrc := k__limit_frc w efcid lid sensor_type sensor_datatype sensor_objid sensor_adr sensor_cutoff sensor_limit_adr
       ne_in nf_in nl_in efc_type_in efc_id_in efc_pos_in sensordata_out orc.
 
-  (* the row condition: inside the limit block of the world, efc_id = the sensor's object, a limit row *)
-  Definition limit_row_selected : bool :=
+  (* the row condition: inside the limit block of the world, efc_id = the sensor's object, and the row
+     family matches the sensor family: LIMIT_JOINT (3) for the joint-limit sensor type [jt],
+     LIMIT_TENDON (4) for the tendon-limit sensor type [tt] *)
+  Definition limit_row_selected (jt tt : Z) : bool :=
     let sid := sensor_limit_adr lid in
     negb ((efcid <? ne_in w + nf_in w) || (efcid >=? ne_in w + nf_in w + nl_in w))
     && (efc_id_in w efcid =? sensor_objid sid)
-    && ((efc_type_in w efcid =? 3) || (efc_type_in w efcid =? 4)).
+    && (((efc_type_in w efcid =? 3) && (sensor_type sid =? jt)) || ((efc_type_in w efcid =? 4) && (sensor_type sid =? tt))).
   Definition limit_write (x : S) : list (write S) :=
     let sid := sensor_limit_adr lid in
     write_scalar w (sensor_adr sid) (sensor_type sid) (sensor_datatype sid) (sensor_cutoff sid) x.
@@ -424,54 +426,73 @@ Section Limit.
            | |- context [Z.eqb ?a ?b] => destruct (Z.eqb a b)
            | |- context [sgtb ?a ?b] => destruct (sgtb a b)
            end; cbv beta iota delta [orb andb negb].
-  Ltac shape := atoms; first [left; reflexivity | right; reflexivity].
-  Ltac only_sel := atoms; first [reflexivity | intros Hc; exfalso; apply Hc; reflexivity].
 
-  (* (these two forms hold for the current kernels and also for kernels that test the sensor type in addition) *)
-  (* one task writes nothing, or the row's value through the cutoff function at the sensor's address *)
-  Theorem limit_pos_kernel_shape : klimpos = [] \/ klimpos = limit_write (ssub (efc_pos_in w efcid) (efc_margin_in w efcid)).
-  Proof. unfold klimpos. cbv beta zeta delta [k__limit_pos]. shape. Qed.
-  Theorem limit_vel_kernel_shape : klimvel = [] \/ klimvel = limit_write (efc_pos_in w efcid).
-  Proof. unfold klimvel. cbv beta zeta delta [k__limit_vel]. shape. Qed.
-  Theorem limit_frc_kernel_shape : klimfrc = [] \/ klimfrc = limit_write (efc_pos_in w efcid).
-  Proof. unfold klimfrc. cbv beta zeta delta [k__limit_frc]. shape. Qed.
-  (* ... and it writes only for a selected row *)
-  Theorem limit_pos_writes_only_selected_row : klimpos <> [] -> limit_row_selected = true.
-  Proof. unfold klimpos. cbv beta zeta delta [k__limit_pos]. only_sel. Qed.
-  Theorem limit_vel_writes_only_selected_row : klimvel <> [] -> limit_row_selected = true.
-  Proof. unfold klimvel. cbv beta zeta delta [k__limit_vel]. only_sel. Qed.
-  Theorem limit_frc_writes_only_selected_row : klimfrc <> [] -> limit_row_selected = true.
-  Proof. unfold klimfrc. cbv beta zeta delta [k__limit_frc]. only_sel. Qed.
+  (* one task of the translated kernels: exactly the selected row is written, through the cutoff function,
+     at the sensor's address *)
+  Theorem limit_pos_kernel_spec :
+    klimpos = if limit_row_selected 20 23 then limit_write (ssub (efc_pos_in w efcid) (efc_margin_in w efcid)) else [].
+  Proof. unfold klimpos. cbv beta zeta delta [k__limit_pos]. atoms; reflexivity. Qed.
+  Theorem limit_vel_kernel_spec : klimvel = if limit_row_selected 21 24 then limit_write (efc_pos_in w efcid) else [].
+  Proof. unfold klimvel. cbv beta zeta delta [k__limit_vel]. atoms; reflexivity. Qed.
+  Theorem limit_frc_kernel_spec : klimfrc = if limit_row_selected 22 25 then limit_write (efc_pos_in w efcid) else [].
+  Proof. unfold klimfrc. cbv beta zeta delta [k__limit_frc]. atoms; reflexivity. Qed.
 
-  (* ---- BEGIN block that holds only while the row selection ignores the sensor type (finding
-          C07:LIMITSENSOR:joint-tendon-id-collision); delete it, and the theorem
-          limit_sensor_matches_mujoco_refuted below, when /repo is fixed ------------------------- *)
-  Theorem limit_pos_writes_every_selected_row :
-    limit_row_selected = true -> klimpos = limit_write (ssub (efc_pos_in w efcid) (efc_margin_in w efcid)).
-  Proof. unfold klimpos. cbv beta zeta delta [k__limit_pos]. atoms; first [reflexivity | discriminate]. Qed.
-  (* ---- END block -------------------------------------------------------------------------------- *)
-End Limit.
+  (* the selection is MuJoCo's (engine_sensor.c): a joint-limit sensor reads only mjCNSTR_LIMIT_JOINT rows whose
+     id is its joint, a tendon-limit sensor only mjCNSTR_LIMIT_TENDON rows whose id is its tendon *)
+  Ltac sel_mj jt tt :=
+    unfold limit_row_selected, mj_limit_row_matches; cbv zeta;
+    destruct (negb _); [|discriminate];
+    destruct (efc_id_in w efcid =? sensor_objid (sensor_limit_adr lid)); [|discriminate];
+    destruct (efc_type_in w efcid =? 3), (efc_type_in w efcid =? 4);
+    destruct (Z.eqb_spec (sensor_type (sensor_limit_adr lid)) jt) as [E1 |];
+    destruct (Z.eqb_spec (sensor_type (sensor_limit_adr lid)) tt) as [E2 |];
+    try (exfalso; lia); try rewrite E1; try rewrite E2; cbv; intros; try discriminate; reflexivity.
+  Lemma selected_matches_mujoco_pos :
+    limit_row_selected 20 23 = true ->
+    mj_limit_row_matches (sensor_type (sensor_limit_adr lid)) (efc_type_in w efcid) (efc_id_in w efcid) (sensor_objid (sensor_limit_adr lid)) = true.
+  Proof. sel_mj 20 23. Qed.
+  Lemma selected_matches_mujoco_vel :
+    limit_row_selected 21 24 = true ->
+    mj_limit_row_matches (sensor_type (sensor_limit_adr lid)) (efc_type_in w efcid) (efc_id_in w efcid) (sensor_objid (sensor_limit_adr lid)) = true.
+  Proof. sel_mj 21 24. Qed.
+  Lemma selected_matches_mujoco_frc :
+    limit_row_selected 22 25 = true ->
+    mj_limit_row_matches (sensor_type (sensor_limit_adr lid)) (efc_type_in w efcid) (efc_id_in w efcid) (sensor_objid (sensor_limit_adr lid)) = true.
+  Proof. sel_mj 22 25. Qed.
 
-(* ---- BEGIN block to delete when /repo is fixed (finding C07:LIMITSENSOR:joint-tendon-id-collision) ---- *)
-Section LimitRefuted.
-  Context {S : Type} `{Scalar S}.
-  (* MuJoCo: a JOINTLIMITPOS sensor (type 20) of joint 0 must ignore the limit row of TENDON 0
-     (efc_type 4, efc_id 0).  The translated kernel writes that row's value into the joint sensor:
-     the code never looks at the sensor type when it matches rows.  Witness replayed on the real
-     code by bin/props/C07.py (finding C07:JOINTLIMITPOS:tendon-limit-row-id-collision). *)
-  Theorem limit_sensor_matches_mujoco_refuted :
-    exists (stype efc_type efc_id objid : Z),
-      mj_limit_row_matches stype efc_type efc_id objid = false /\
-      k__limit_pos (S:=S) 0 0 0 (fun _ => stype) (fun _ => 0) (fun _ => objid) (fun _ => 0) (fun _ => s0) (fun _ => 0)
-        (fun _ => 0) (fun _ => 0) (fun _ => 1) (fun _ _ => efc_type) (fun _ _ => efc_id) (fun _ _ => s1) (fun _ _ => s0)
-        (fun _ _ => s0) (fun _ => 0) <> [].
+  Theorem limit_pos_reads_only_matching_row :
+    klimpos <> [] ->
+    let sid := sensor_limit_adr lid in
+    mj_limit_row_matches (sensor_type sid) (efc_type_in w efcid) (efc_id_in w efcid) (sensor_objid sid) = true.
   Proof.
-    exists 20, 4, 0, 0. split; [reflexivity|].
-    cbv beta zeta delta [k__limit_pos]. simpl Z.ltb. simpl Z.geb. simpl Z.eqb. cbv beta iota delta [orb negb andb].
-    destruct (sgtb s0 (sofZ 0)); cbv iota beta delta [app]; discriminate.
+    rewrite limit_pos_kernel_spec. destruct (limit_row_selected 20 23) eqn:E; [|intros Hc; exfalso; apply Hc; reflexivity].
+    intros _. cbv zeta. apply selected_matches_mujoco_pos; assumption.
   Qed.
-End LimitRefuted.
-(* ---- END block ---- *)
+  Theorem limit_vel_reads_only_matching_row :
+    klimvel <> [] ->
+    let sid := sensor_limit_adr lid in
+    mj_limit_row_matches (sensor_type sid) (efc_type_in w efcid) (efc_id_in w efcid) (sensor_objid sid) = true.
+  Proof.
+    rewrite limit_vel_kernel_spec. destruct (limit_row_selected 21 24) eqn:E; [|intros Hc; exfalso; apply Hc; reflexivity].
+    intros _. cbv zeta. apply selected_matches_mujoco_vel; assumption.
+  Qed.
+  Theorem limit_frc_reads_only_matching_row :
+    klimfrc <> [] ->
+    let sid := sensor_limit_adr lid in
+    mj_limit_row_matches (sensor_type sid) (efc_type_in w efcid) (efc_id_in w efcid) (sensor_objid sid) = true.
+  Proof.
+    rewrite limit_frc_kernel_spec. destruct (limit_row_selected 22 25) eqn:E; [|intros Hc; exfalso; apply Hc; reflexivity].
+    intros _. cbv zeta. apply selected_matches_mujoco_frc; assumption.
+  Qed.
+
+  (* in particular the former defect is excluded: a JOINTLIMITPOS sensor never reads a tendon-limit row *)
+  Corollary jointlimitpos_ignores_tendon_rows :
+    sensor_type (sensor_limit_adr lid) = 20 -> efc_type_in w efcid = 4 -> klimpos = [].
+  Proof.
+    intros Hs Ht. rewrite limit_pos_kernel_spec. unfold limit_row_selected. cbv zeta. rewrite Hs, Ht. simpl Z.eqb.
+    rewrite !andb_false_r. reflexivity.
+  Qed.
+End Limit.
 
 Section TendonCutoff.
   Context {S : Type} `{Scalar S}.
